@@ -79,7 +79,7 @@ def register(J):
                                "same base name, the main file never skipped; C20: every input marked on_merge_delete and "
                                "every intermediate result is released exactly once."))
     # --- readConfigWithCallback (dfcc) ---------------------------------------
-    J.append(Job("rcwc", ["C06", "C12", "C20"], "harness/rcwc.c", sources=["lib/readconfig.c"],
+    J.append(Job("rcwc", ["C06", "C12", "C20", "C01"], "harness/rcwc.c", sources=["lib/readconfig.c"],
                  contracts=["contracts/rcwc.h"], enforce="readConfigWithCallback",
                  replace=["readConfigHistoryWithCallback", "merge_econf_files", "econf_freeFile"],
                  unwind=8, tier="T1", timeout=600, mem_gb=8, tiers=Q,
